@@ -378,6 +378,30 @@ def check_beer_lambert(case, os_):
     return None
 
 
+def check_analytic_numerical(alt, sigma_surface, os_=8):
+    """the analytic PFS*PTR*PDF of the waveform model against the flat-surface response of the same model convolved numerically with a
+    Gaussian pulse (pulse_sigma) and a Gaussian distribution of surface heights (a height h is a two-way delay 2h/c), on the solver's
+    own time grid; deviation in fraction of the peak (the unchanged package stays below 5.5 % for the satellite altimeters)"""
+    from smrt.rtsolver.waveform_model import Brown1977
+    from smrt.core.globalconstants import C_SPEED
+    sensor = make_sensor(alt)
+    n = sensor.ngate * os_
+    dt = 1.0 / (sensor.pulse_bandwidth * os_)
+    tau = np.arange(n) * dt
+    w = Brown1977(sensor)
+    ana = np.asarray(w.PFS_PTR_PDF(tau.copy(), sigma_surface=sigma_surface), dtype=float)
+    sc = math.sqrt(sensor.pulse_sigma ** 2 + (2 * sigma_surface / C_SPEED) ** 2)
+    m = int(math.ceil(6 * sc / dt))
+    pfs = np.asarray(w.PFS(np.arange(-m, n + m) * dt), dtype=float)
+    x = np.arange(-m, m + 1) * dt
+    kern = np.exp(-x ** 2 / (2 * sc ** 2)); kern /= kern.sum()
+    num = np.convolve(pfs, kern, mode="same")[m:m + n] / sensor.pulse_bandwidth
+    dev = float(np.abs(ana - num).max() / num.max())
+    if not dev <= 0.07:
+        return ("analytic-vs-numerical:" + alt.split(":")[0], dev, "<= 7 % of the peak")
+    return None
+
+
 def to_finding(case, b):
     key, what, o, obs, req = b
     return Finding(key, what, {"case": case, "opts": o, "check": "beer" if key == "beer-lambert" else "flags"}, obs, req)
@@ -385,7 +409,7 @@ def to_finding(case, b):
 
 def oracle(ctx, hints, effort):
     rng = ctx.np
-    findings, evals = [], 0
+    findings, evals, extra = [], 0, []
     todo = []
     for h in (hints or [])[:20]:
         d = h.get("desc") or {}
@@ -423,6 +447,13 @@ def oracle(ctx, hints, effort):
         b = check_beer_lambert(case, int(rng.choice([1, 2, 5, 10, 20])))
         if b:
             findings.append(to_finding(case, b))
+    for alt in ALTIMETERS:
+        for sig in ([0.0, 0.3, 1.0] if effort == "routine" else [0.0, 0.05, 0.15, 0.3, 0.5, 0.75, 1.0]):
+            evals += 1
+            r = check_analytic_numerical(alt, sig)
+            if r and not any(f.key == r[0] for f in extra):
+                extra.append(Finding(r[0], f"{alt}: analytic PFS*PTR*PDF differs from the numerical convolution by {100 * r[1]:.1f} % of the peak at "
+                                     f"sigma_surface = {sig} m", {"check": "analytic", "alt": alt, "sigma_surface": sig}, r[1], r[2]))
     # one finding per defect site, the smallest input
     best = {}
     size = lambda f: (len(f.inp["case"]["thickness"]), f.inp["opts"]["oversampling"], f.inp["opts"]["theta_inc_sampling"],
@@ -430,10 +461,13 @@ def oracle(ctx, hints, effort):
     for f in findings:
         if f.key not in best or size(f) < size(best[f.key]):
             best[f.key] = f
-    return list(best.values()), evals
+    return list(best.values()) + extra, evals
 
 
 def replay(inp, rp=None):
+    if inp.get("check") == "analytic":
+        r = check_analytic_numerical(inp["alt"], inp["sigma_surface"])
+        return Finding(r[0], "analytic PFS*PTR*PDF differs from the numerical convolution", inp, r[1], r[2]) if r else None
     case, o = inp["case"], inp["opts"]
     if inp.get("check") == "beer":
         b = check_beer_lambert(case, o["oversampling"])
